@@ -141,6 +141,25 @@ def props_assumptions(pid, timeout=900):
     return list(zip(names, blocks + ["<missing>"] * (len(names) - len(blocks)))), out
 
 
+def coqchk(pid, timeout=2400):
+    """Independent re-check of Props/<pid>.vo and everything it depends on (thorough tier)."""
+    t0 = time.time()
+    try:
+        rc, out, err = sh(["timeout", str(timeout), "coqchk", "-silent", "-o", "-Q", ".", "HV", "HV.Props." + pid],
+                          cwd=COQ, timeout=timeout + 60)
+    except subprocess.TimeoutExpired:
+        return {"status": "timeout", "seconds": round(time.time() - t0)}
+    txt = (out + err)
+    if rc == 124:
+        return {"status": "timeout", "seconds": round(time.time() - t0)}
+    axioms = []
+    m = re.search(r"\* Axioms:(.*?)(\n\s*\n|\* |$)", txt, re.S)
+    if m:
+        axioms = [a.strip() for a in m.group(1).split("\n") if a.strip() and "<none>" not in a]
+    return {"status": "ok" if rc == 0 else "failed", "seconds": round(time.time() - t0), "axioms_reported": axioms,
+            "tail": txt[-600:]}
+
+
 _HYG = re.compile(r'\b(Admitted|admit|Axiom|Axioms|Parameter|Parameters|Conjecture|Hypothesis|Variable)\b|Unset\s+Guard|bypass_check|type-in-type|impredicative-set|Admit Obligations')
 
 
@@ -387,6 +406,10 @@ class Ctx:
                     self.proof_broken = {"lemma": name, "message": "depends on non-allow-listed assumptions: " + blk[:500]}
         self.cov["theorems"] = [n for n, _ in res]
         self.cov["print_assumptions"] = ("all Closed under the global context" if not axioms else axioms)
+        if self.tier == "thorough" and self.proof_broken is None and os.environ.get("VERIF_NO_COQCHK") != "1":
+            self.cov["coqchk"] = coqchk(pid)
+            if self.cov["coqchk"].get("status") == "failed":
+                self.proof_broken = {"lemma": "coqchk", "message": self.cov["coqchk"].get("tail", "")[:800]}
         return self.proof_broken is None
 
     def finish(self):
